@@ -620,7 +620,7 @@ class Ctx:
                 elif isinstance(v, Rec):
                     v = v.field(k, ty)
                 else:
-                    raise Unsupported("field of scalar")
+                    raise Unsupported("field %s of a %s value (local _%d in %s)" % (k, type(v).__name__, l, fr["fn"].name.split("::")[-1]))
         return v
 
     def operand(self, fr, s):
